@@ -245,8 +245,10 @@ class TRot(TSpec):
         return RotV.symbolic(name, path, self.so3)
 
     def candidates(self, name):
-        mats = [((1, 0, 0), (0, 1, 0), (0, 0, 1)), ((0, -1, 0), (1, 0, 0), (0, 0, 1)),
-                ((0, 0, 1), (0, 1, 0), (-1, 0, 0)), ((1, 0, 0), (0, 0, -1), (0, 1, 0))]
+        from fractions import Fraction as _F
+        a, b = _F(3, 5), _F(4, 5)
+        mats = [((1, 0, 0), (0, 1, 0), (0, 0, 1)), ((a, b, 0), (-b, a, 0), (0, 0, 1)),
+                ((0, -1, 0), (1, 0, 0), (0, 0, 1)), ((0, 0, 1), (0, 1, 0), (-1, 0, 0))]
         return [{f"{name}_m{i}{j}": m[i][j] for i in range(3) for j in range(3)} for m in mats]
 
     def src(self, name, model):
@@ -383,6 +385,7 @@ class Contract:
         self.verify = getattr(cls, "verify", True)
         self.imports = getattr(cls, "imports", "")
         self.native_call = getattr(cls, "native_call", None)   # source expr for calling the real function
+        self.lemmas = dict(getattr(cls, "lemmas", {}) or {})    # name -> ("v1 v2 ...", universally valid formula)
 
     # evaluation of a clause -------------------------------------------------
     def _env(self, interp, bound, extra=None):
